@@ -1,0 +1,41 @@
+//go:build verif
+
+package mpt
+
+import "github.com/nspcc-dev/neo-go/pkg/util"
+
+// This file is a test seam for the external verification harness (/verif).
+// It is compiled only with `-tags verif`, adds no behaviour to normal builds
+// and only reads unexported state.
+
+// VerifC11RefEntry is a read-only copy of one entry of the per-block
+// reference counting map of a Trie (see cachedNode).
+type VerifC11RefEntry struct {
+	Initial  int32 // cached stored counter (0 means "not known, read the store")
+	Delta    int32 // pending change accumulated by addRef/removeRef since the last Flush
+	HasBytes bool  // serialized node is known
+}
+
+// VerifC11RefDeltas returns a copy of the reference counting map of the trie
+// as it stands now (normally taken between PutBatch and Flush).
+func (t *Trie) VerifC11RefDeltas() map[util.Uint256]VerifC11RefEntry {
+	res := make(map[util.Uint256]VerifC11RefEntry, len(t.refcount))
+	for h, n := range t.refcount {
+		res[h] = VerifC11RefEntry{Initial: n.initial, Delta: n.refcount, HasBytes: n.bytes != nil}
+	}
+	return res
+}
+
+// VerifC11BatchKV returns copies of the (nibble path, value) pairs of a Batch
+// in the order PutBatch is going to process them; a nil value is a deletion.
+func (b Batch) VerifC11BatchKV() (keys [][]byte, values [][]byte) {
+	for _, kv := range b.kv {
+		keys = append(keys, append([]byte{}, kv.key...))
+		if kv.value == nil {
+			values = append(values, nil)
+		} else {
+			values = append(values, append([]byte{}, kv.value...))
+		}
+	}
+	return keys, values
+}
